@@ -57,6 +57,14 @@ impl Out {
     }
 }
 
+/// formatting call on the subject; a panic inside the subject becomes an observation, not a crash of the probe
+fn gfmt(f: impl FnOnce() -> String) -> String {
+    match guard(f) {
+        Ok(s) => s,
+        Err(e) => format!("<panic: {}>", e),
+    }
+}
+
 fn guard<T>(f: impl FnOnce() -> T) -> Result<T, String> {
     catch_unwind(AssertUnwindSafe(f)).map_err(|e| {
         if let Some(s) = e.downcast_ref::<&str>() {
@@ -314,7 +322,7 @@ fn main() {
                 // 0.000ddd with z zeros after the point
                 let x = Dec { n: &n * sign, s: len + z };
                 o.checks += 1;
-                let t = format!("{}", bd(&x));
+                let t = gfmt(|| format!("{}", bd(&x)));
                 let has_exp = t.contains('e') || t.contains('E');
                 if has_exp != (z > lower) {
                     o.bad("Display leading-zero threshold", x.show(), format!("exponent form: {}", z > lower), t.clone());
@@ -325,7 +333,7 @@ fn main() {
                 // ddd000 with z trailing zeros
                 let y = Dec { n: &n * sign, s: -z };
                 o.checks += 1;
-                let t = format!("{}", bd(&y));
+                let t = gfmt(|| format!("{}", bd(&y)));
                 let has_exp = t.contains('e') || t.contains('E');
                 if has_exp != (z > upper) {
                     o.bad("Display trailing-zero threshold", y.show(), format!("exponent form: {}", z > upper), t.clone());
@@ -333,7 +341,7 @@ fn main() {
                 if recognise(&t).and_then(|m| m.to_dec()).map(|v| v.eq_val(&y)) != Some(true) {
                     o.bad("Display round trip", y.show(), y.show(), t);
                 }
-                let t = format!("{}", bd(&y).to_ref());
+                let t = gfmt(|| format!("{}", bd(&y).to_ref()));
                 if (t.contains('e') || t.contains('E')) != (z > upper) {
                     o.bad("Display (ref) trailing-zero threshold", y.show(), format!("exponent form: {}", z > upper), t);
                 }
@@ -353,7 +361,7 @@ fn main() {
                 let xb = bd(&x);
                 for prec in 0usize..=4 {
                     o.checks += 1;
-                    let t = format!("{:.*}", prec, xb);
+                    let t = gfmt(|| format!("{:.*}", prec, xb));
                     let want = Dec { n: round_to_scale(&x.n, x.s, prec as i128, mode), s: prec as i128 };
                     // an integer (scale 0) is only padded when the padding stays within the configured limit (see 8.)
                     let may_be_unpadded = x.s == 0 && prec as i128 > padding - 1;
@@ -364,7 +372,7 @@ fn main() {
                     }
                     if n % 7 == 0 {
                         o.checks += 1;
-                        let t = format!("{:.*e}", prec, xb);
+                        let t = gfmt(|| format!("{:.*e}", prec, xb));
                         let want = round_to_prec(&x.n, x.s, prec as u64 + 1, mode);
                         match recognise(&t) {
                             Some(m) if m.exp.is_some() && m.frac_digits.len() == prec && m.to_dec().map(|v| v.eq_val(&want)) == Some(true) => {}
@@ -392,7 +400,7 @@ fn main() {
                     let x = Dec { n: n.clone(), s: (l + keep) as i128 };
                     let xb = bd(&x);
                     o.checks += 1;
-                    let t = format!("{:.*}", keep, xb);
+                    let t = gfmt(|| format!("{:.*}", keep, xb));
                     let want = Dec { n: round_to_scale(&x.n, x.s, keep as i128, mode), s: keep as i128 };
                     match recognise(&t) {
                         Some(m) if m.exp.is_none() && m.frac_digits.len() == keep && m.to_dec().map(|v| v.eq_val(&want)) == Some(true) => {}
@@ -400,13 +408,51 @@ fn main() {
                     }
                     o.checks += 1;
                     let sig = head.len();
-                    let t = format!("{:.*e}", sig - 1, xb);
+                    let t = gfmt(|| format!("{:.*e}", sig - 1, xb));
                     let want = round_to_prec(&x.n, x.s, sig as u64, mode);
                     match recognise(&t) {
                         Some(m) if m.exp.is_some() && m.frac_digits.len() == sig - 1 && m.to_dec().map(|v| v.eq_val(&want)) == Some(true) => {}
                         _ => o.bad("{:.Ne} rounding (long dropped tail)", format!("{} N={}", x.show(), sig - 1), want.show(), t),
                     }
                 }
+            }
+        }
+    }
+
+    // 7c. carries through runs of nines of every length behind a non-nine digit ({:.N} and {:.Ne})
+    let rmax: usize = if full { 70 } else { 40 };
+    for r in 1..=rmax {
+        for (pre, last) in [("1", "6"), ("12", "96"), ("", "5"), ("3", "51")] {
+            let digits = format!("{}{}{}", pre, "9".repeat(r), last);
+            let n: BigInt = digits.parse().unwrap();
+            for sign in [1i64, -1] {
+              // round right behind the run of nines: prefix as the integer part, and everything behind the point
+              for frac_prefix in [false, true] {
+                if frac_prefix && pre.is_empty() {
+                    continue;
+                }
+                let frac = (r + last.len() + if frac_prefix { pre.len() } else { 0 }) as i128;
+                let x = Dec { n: &n * sign, s: frac };
+                let xb = bd(&x);
+                let keep = r + if frac_prefix { pre.len() } else { 0 };
+                o.checks += 1;
+                let t = gfmt(|| format!("{:.*}", keep, xb));
+                let want = Dec { n: round_to_scale(&x.n, x.s, keep as i128, mode), s: keep as i128 };
+                match recognise(&t) {
+                    Some(m) if m.exp.is_none() && m.frac_digits.len() == keep && m.to_dec().map(|v| v.eq_val(&want)) == Some(true) => {}
+                    _ => o.bad("{:.N} rounding (carry chain)", format!("{} N={}", x.show(), keep), want.show(), t),
+                }
+                let sig = pre.len() + r;
+                if sig >= 1 {
+                    o.checks += 1;
+                    let t = gfmt(|| format!("{:.*e}", sig - 1, xb));
+                    let want = round_to_prec(&x.n, x.s, sig as u64, mode);
+                    match recognise(&t) {
+                        Some(m) if m.exp.is_some() && m.frac_digits.len() == sig - 1 && m.to_dec().map(|v| v.eq_val(&want)) == Some(true) => {}
+                        _ => o.bad("{:.Ne} rounding (carry chain)", format!("{} N={}", x.show(), sig - 1), want.show(), t),
+                    }
+                }
+              }
             }
         }
     }
@@ -420,7 +466,7 @@ fn main() {
             for n in [1i64, -42] {
                 let x = Dec::new(n, -z);
                 o.checks += 1;
-                let t = format!("{:.*}", prec, bd(&x));
+                let t = gfmt(|| format!("{:.*}", prec, bd(&x)));
                 let zeros = z + prec as i128;
                 let total = zeros + if prec > 0 { 1 } else { 0 };
                 let m = match recognise(&t) {
